@@ -151,7 +151,95 @@ pub fn run_case(c: &RCase, st: &mut Stats) -> Result<(), (String, String)> {
     Ok(())
 }
 
-pub const RULE: &str = "adapter level: the program's own price adapter (try_from_bank_with_max_age + get_price_of_type) for Kamino/Solend x Pyth/Switchboard banks over extreme reserve states: available / borrowed in {0, units, ..., 2^62}, fees up to 100% of liquidity, supplies from 1 to 2^62, decimals 0-19 and 23 (states whose scaled collateral supply is below 2^-38 are skipped: that is the regime of the recorded double-flooring finding): returned price <= price x exact (liquidity/collateral) x (1 + 2^-9) + 4 ulp x price + 2 feed units, never negative; failing closed is always accepted. Non-trivial = the exact rate is zero or the liquidity vanishes after decimal scaling while collateral is outstanding.";
+
+// ------------------------------------------------------------------------------------------------
+// staleness stream: "a venue reserve or market that was not refreshed in the current slot or second is
+// treated as stale" - through the program's price adapter, for all three venues and both oracle families
+// ------------------------------------------------------------------------------------------------
+#[derive(Clone, Debug, Serialize, Deserialize)]
+pub struct SCase {
+    /// 0 KaminoPyth, 1 KaminoSwb, 2 SolendPyth, 3 SolendSwb, 4 DriftPyth, 5 DriftSwb
+    pub kind: u8,
+    /// slots (Kamino, Solend) / seconds (Drift) since the venue account was last refreshed
+    pub gap: u64,
+    /// Drift: the market has outstanding borrows; Kamino / Solend: borrowed amount non-zero
+    pub borrows: bool,
+    pub deposits: u64,
+    pub rate_pm: u32,
+    pub price_mant: i64,
+}
+
+pub fn stale_strategy() -> impl Strategy<Value = SCase> {
+    (0u8..6, prop_oneof![3 => Just(0u64), 3 => Just(1u64), 2 => 2u64..100, 1 => 100u64..10_000_000], any::<bool>(), prop_oneof![1 => Just(0u64), 3 => 1u64..1_000_000_000_000], 1000u32..3000, 1i64..1_000_000_000)
+        .prop_map(|(kind, gap, borrows, deposits, rate_pm, price_mant)| SCase { kind, gap, borrows, deposits, rate_pm, price_mant })
+}
+
+pub fn run_stale_case(c: &SCase) -> Result<bool, (String, String)> {
+    crate::svm::init();
+    let (slot, ts) = (1_000_000u64, 1_700_000_000i64);
+    crate::svm::set_thread_clock(slot, ts);
+    let mut clock = Clock::default();
+    clock.slot = slot;
+    clock.unix_timestamp = ts;
+    let venue = c.kind / 2;
+    let pyth = c.kind % 2 == 0;
+    let expo = -8;
+    let oracle = if pyth { fab::pyth_price_update(c.price_mant, 0, c.price_mant, 0, expo, ts, None, [7u8; 32]) } else { fab::switchboard_pull_feed(c.price_mant as i128 * 10_000_000_000, 0, ts) };
+    let borrowed: u128 = if c.borrows { (c.deposits as u128 / 2).max(1) } else { 0 };
+    let reserve = match venue {
+        0 => fab::kamino_reserve(slot.saturating_sub(c.gap), c.deposits, borrowed << 60, 0, 0, 0, (c.deposits as u128 * 1000 / c.rate_pm as u128).max(1) as u64, 6),
+        1 => fab::solend_reserve(slot.saturating_sub(c.gap), c.deposits, borrowed * 1_000_000_000_000_000_000, 0, (c.deposits as u128 * 1000 / c.rate_pm as u128).max(1) as u64, 6),
+        _ => {
+            let mut m: drift_mocks::state::MinimalSpotMarket = bytemuck::Zeroable::zeroed();
+            let cdi: u128 = 10_000_000_000u128 * c.rate_pm as u128 / 1000;
+            m.cumulative_deposit_interest = cdi.to_le_bytes();
+            m.cumulative_borrow_interest = cdi.to_le_bytes();
+            m.last_interest_ts = (ts as u64).saturating_sub(c.gap);
+            m.decimals = 6;
+            m.market_index = 1;
+            m.deposit_balance = (c.deposits as u128).to_le_bytes();
+            m.borrow_balance = borrowed.to_le_bytes();
+            let mut d = drift_mocks::state::SPOT_MARKET_DISCRIMINATOR.to_vec();
+            d.extend_from_slice(bytemuck::bytes_of(&m));
+            fab::Fab { data: d, owner: fab::drift_owner() }
+        }
+    };
+    let setup = match c.kind {
+        0 => OracleSetup::KaminoPythPush,
+        1 => OracleSetup::KaminoSwitchboardPull,
+        2 => OracleSetup::SolendPythPull,
+        3 => OracleSetup::SolendSwitchboardPull,
+        4 => OracleSetup::DriftPythPull,
+        _ => OracleSetup::DriftSwitchboardPull,
+    };
+    let k0 = crate::world::kp("c20b_oracle", 1);
+    let k1 = crate::world::kp("c20b_reserve", 1);
+    let bank = fab::pod_bank(setup, &[k0, k1], 100, 0, 0);
+    let mut datas = [oracle.data.clone(), reserve.data.clone()];
+    let owners = [oracle.owner, reserve.owner];
+    let keys: [Pubkey; 2] = [k0, k1];
+    let mut lamports = [1_000_000u64, 1_000_000u64];
+    let priced: bool = {
+        let (d0, d1) = datas.split_at_mut(1);
+        let (l0, l1) = lamports.split_at_mut(1);
+        let ais = vec![
+            AccountInfo::new(&keys[0], false, false, &mut l0[0], &mut d0[0][..], &owners[0], false, 0),
+            AccountInfo::new(&keys[1], false, false, &mut l1[0], &mut d1[0][..], &owners[1], false, 0),
+        ];
+        let ais_ref: &[AccountInfo] = unsafe { std::mem::transmute(&ais[..]) };
+        matches!(catch_unwind(AssertUnwindSafe(|| OraclePriceFeedAdapter::try_from_bank_with_max_age(&bank, ais_ref, &clock, 100))), Ok(Ok(_)))
+    };
+    let name = ["kamino", "solend", "drift"][venue as usize % 3];
+    if c.gap >= 1 && priced {
+        return Err((
+            format!("adapter-stale-venue-priced:{name}"),
+            format!("{name} {} bank: the venue account was last refreshed {} {} ago (outstanding borrows: {}), yet the price adapter returned a price", if pyth { "Pyth" } else { "Switchboard" }, c.gap, if venue == 2 { "s" } else { "slots" }, c.borrows),
+        ));
+    }
+    Ok(priced)
+}
+
+pub const RULE: &str = "adapter level: the program's own price adapter (try_from_bank_with_max_age + get_price_of_type) for Kamino/Solend x Pyth/Switchboard banks over extreme reserve states: available / borrowed in {0, units, ..., 2^62}, fees up to 100% of liquidity, supplies from 1 to 2^62, decimals 0-19 and 23 (states whose scaled collateral supply is below 2^-38 are skipped: that is the regime of the recorded double-flooring finding): returned price <= price x exact (liquidity/collateral) x (1 + 2^-9) + 4 ulp x price + 2 feed units, never negative; failing closed is always accepted. Staleness stream: Kamino / Solend / Drift x Pyth / Switchboard banks whose venue account was last refreshed 0, 1, 2-100 or up to 10^7 slots (seconds for Drift) before the clock, with and without outstanding borrows / deposits, oracle fresh: any gap >= 1 => the adapter must not return a price. Non-trivial = the exact rate is zero or the liquidity vanishes after decimal scaling while collateral is outstanding.";
 
 pub fn run(ctx: &Ctx) -> Report {
     let cases: u32 = ctx.tier.pick(20_000, 2_000_000);
@@ -185,6 +273,30 @@ pub fn run(ctx: &Ctx) -> Report {
             v["half"] = json!("c20b");
             rep.violation(&sig, m, v);
         }
+        // staleness stream
+        let sstrat = stale_strategy();
+        let outcome = run_prop(ctx.seed_bytes("c20b-stale", wi as u64), cases / 4, &sstrat, |c, counting| {
+            let r = run_stale_case(c);
+            if counting {
+                rep.eval();
+                let venue = ["kamino", "solend", "drift"][(c.kind / 2) as usize % 3];
+                match &r {
+                    Ok(true) => rep.label(&format!("stale-stream:{venue}:fresh:priced")),
+                    Ok(false) => rep.label(&format!("stale-stream:{venue}:{}:refused", if c.gap == 0 { "fresh" } else { "stale" })),
+                    Err(_) => {}
+                }
+                if c.gap >= 1 {
+                    rep.nontrivial_case(&json!({"stale": c.kind, "g": c.gap.min(3), "b": c.borrows, "z": c.deposits == 0}));
+                }
+            }
+            r.map(|_| ()).map_err(|(s, m)| format!("{s}|{m}"))
+        });
+        if let Some((c, msg)) = outcome.failure {
+            let (sig, m) = msg.split_once('|').map(|(a, b)| (a.to_string(), b.to_string())).unwrap_or((msg.clone(), msg.clone()));
+            let mut v = serde_json::to_value(&c).unwrap();
+            v["half"] = json!("c20b-stale");
+            rep.violation(&sig, m, v);
+        }
         rep
     })
 }
@@ -197,6 +309,21 @@ pub fn replay(_ctx: &Ctx, case: &Value) -> Report {
             let mut st = Stats::default();
             rep.eval();
             if let Err((sig, msg)) = run_case(&c, &mut st) {
+                rep.violation(&sig, msg, case.clone());
+            }
+        }
+        Err(e) => rep.engine_errors.push(format!("bad replay: {e}")),
+    }
+    rep
+}
+
+pub fn replay_stale(_ctx: &Ctx, case: &Value) -> Report {
+    let mut rep = Report::new(RULE);
+    rep.nontrivial_floor = 0;
+    match serde_json::from_value::<SCase>(case.clone()) {
+        Ok(c) => {
+            rep.eval();
+            if let Err((sig, msg)) = run_stale_case(&c) {
                 rep.violation(&sig, msg, case.clone());
             }
         }
